@@ -23,3 +23,16 @@ void h_SwapFree__run(void)
   SwapFree__run(self, ctx);
   __CPROVER_assert(0, "canary: contract precondition satisfiable and function exit reachable");
 }
+
+/* ================= init(): the arguments this plugin declares (C12) ================= */
+#include "init_common.h"
+DEF_PARSE(PluginArgParser)
+DEF_ADDARG(int, int)
+void PluginArgParser__addArgument__str_t_int64_t__Bool(PluginArgParser p, str_t name, int64_t *dest, _Bool required) { REG(name, dest, required, 0); }
+int SwapFree__init(SwapFree *self, umap_str_t_str_t args, PluginConstructionContext ctx)
+  __CPROVER_requires(__CPROVER_is_fresh(self, sizeof(*self)) && ghost_exc == 0 && g_reg_n == 0 && g_parse_calls == 0)
+  __CPROVER_assigns(REG_ASSIGNS)
+  __CPROVER_ensures(INIT_CORE(2)) /*@C12*/
+  __CPROVER_ensures(HASREG(STR_threshold_pct, &self->threshold_pct_, 1) && HASREG(STR_swapout_bps_threshold, &self->swapout_bps_threshold_, 0)) /*@C12,C08*/
+  __CPROVER_ensures(ghost_exc == 0);
+void h_SwapFree__init(void) { SwapFree *self; umap_str_t_str_t a; PluginConstructionContext c; HAVOC_REG(); HAVOC(ghost_exc); SwapFree__init(self, a, c); __CPROVER_assert(0, "canary: contract precondition satisfiable and function exit reachable"); }
